@@ -585,10 +585,41 @@ func (x *evx) dataSlots(r *Resolver, v ssa.Value, at ssa.Instruction, must bool)
 
 // Classify maps an origin to its sources in terms of regex groups,
 // configuration fields and constants.
-func Classify(p *Prog, o *Org) []Src {
+func Classify(p *Prog, o *Org) []Src { return classifyDepth(p, o, 0) }
+
+// classifyDepth also looks into repository helper functions (a call origin
+// of a repository function with a body is replaced by the origins of the
+// values it returns, its parameters bound to the caller's arguments).
+func classifyDepth(p *Prog, o *Org, depth int) []Src {
 	var out []Src
+	seen := map[string]bool{}
+	add := func(s Src) {
+		if !seen[s.String()] {
+			seen[s.String()] = true
+			out = append(out, s)
+		}
+	}
 	for _, a := range o.Alts() {
-		out = append(out, classifyOne(p, a))
+		if a.K == "call" && a.R != nil && a.Idx <= 0 && depth < 4 {
+			if call, ok := a.V.(*ssa.Call); ok {
+				if sc := staticCallee(call.Common()); sc != nil && InRepo(sc) && sc.Blocks != nil && sc.Signature.Results().Len() >= 1 {
+					nr := a.R.Bind(sc, call)
+					n := 0
+					allInstrs(sc, func(in ssa.Instruction) {
+						if ret, ok := in.(*ssa.Return); ok && len(ret.Results) > 0 {
+							n++
+							for _, s := range classifyDepth(p, nr.Of(ret.Results[0]), depth+1) {
+								add(s)
+							}
+						}
+					})
+					if n > 0 {
+						continue
+					}
+				}
+			}
+		}
+		add(classifyOne(p, a))
 	}
 	return out
 }
@@ -641,8 +672,7 @@ func groupOf(a *Org) (regex string, group string, ok bool) {
 	if base.K != "call" || base.Name != "(*regexp.Regexp).FindStringSubmatch" {
 		return "", "", false
 	}
-	bc := base.V.(*ssa.Call)
-	rg := regexGlobalOf(bc.Call.Args[0])
+	rg := regexGlobalOfArg(base, 0)
 	if rg == "" {
 		return "", "", false
 	}
@@ -650,19 +680,46 @@ func groupOf(a *Org) (regex string, group string, ok bool) {
 		return rg, fmt.Sprintf("#%d", n), true
 	}
 	if idx.K == "call" && idx.Name == "(*regexp.Regexp).SubexpIndex" {
-		ic := idx.V.(*ssa.Call)
-		ig := regexGlobalOf(ic.Call.Args[0])
-		k, isC := ic.Call.Args[1].(*ssa.Const)
-		if !isC || k.Value == nil || k.Value.Kind() != constant.String {
+		ig := regexGlobalOfArg(idx, 0)
+		name, isC := callArgOrg(idx, 1).ConstString()
+		if !isC {
 			return "", "", false
 		}
-		name := constant.StringVal(k.Value)
 		if ig != rg {
 			return rg, name + "@" + ig, true // index taken from another regex: flagged by callers
 		}
 		return rg, name, true
 	}
 	return "", "", false
+}
+
+// callArgOrg: origin of argument i of a call origin, resolved in the calling
+// context the call was seen in (parameters of a helper bound to the
+// caller's values).
+func callArgOrg(o *Org, i int) *Org {
+	cl, ok := o.V.(*ssa.Call)
+	if !ok || i >= len(cl.Call.Args) {
+		return &Org{K: "unknown"}
+	}
+	if o.R != nil {
+		return o.R.Of(cl.Call.Args[i])
+	}
+	return NewResolver(nil).Of(cl.Call.Args[i])
+}
+
+// regexGlobalOfArg: argument i of the call is (a load of) a package-level
+// *regexp.Regexp, possibly through a parameter bound in the calling context.
+func regexGlobalOfArg(o *Org, i int) string {
+	if cl, ok := o.V.(*ssa.Call); ok && i < len(cl.Call.Args) {
+		if g := regexGlobalOf(cl.Call.Args[i]); g != "" {
+			return g
+		}
+	}
+	a := callArgOrg(o, i)
+	if a.K == "global" {
+		return a.Name
+	}
+	return ""
 }
 
 // regexGlobalOf: v is a load of a package-level *regexp.Regexp.
